@@ -222,15 +222,28 @@ func CLI(repo, verif, scratch string) (*Overlay, error) {
 		if err != nil {
 			return nil, err
 		}
-		if !changed {
-			continue
+		cur := f
+		if changed {
+			dst := filepath.Join(scratch, "cli_"+filepath.Base(f))
+			if err := os.WriteFile(dst, src, 0o644); err != nil {
+				return nil, err
+			}
+			o.Replace[f] = dst
+			cur = dst
+			rewritten++
 		}
-		dst := filepath.Join(scratch, "cli_"+filepath.Base(f))
-		if err := os.WriteFile(dst, src, 0o644); err != nil {
+		// second seam: the buffer sizes of io.ReadAll / io.Copy
+		src2, changed2, err := rewriteImport(cur, "io", "github.com/tdewolff/minify/v2/verifio", "io")
+		if err != nil {
 			return nil, err
 		}
-		o.Replace[f] = dst
-		rewritten++
+		if changed2 {
+			dst := filepath.Join(scratch, "cli2_"+filepath.Base(f))
+			if err := os.WriteFile(dst, src2, 0o644); err != nil {
+				return nil, err
+			}
+			o.Replace[f] = dst
+		}
 	}
 	if rewritten == 0 {
 		return nil, fmt.Errorf("no file of cmd/minify imports os: nothing to simulate")
@@ -245,6 +258,9 @@ func CLI(repo, verif, scratch string) (*Overlay, error) {
 	}
 	o.Replace[filepath.Join(dir, "verif_sim_test.go")] = filepath.Join(verif, "overlaysrc", "driver", "verif_sim_test.go")
 	if err := mapDir(o, filepath.Join(verif, "overlaysrc", "verifos"), filepath.Join(repo, "verifos")); err != nil {
+		return nil, err
+	}
+	if err := mapDir(o, filepath.Join(verif, "overlaysrc", "verifio"), filepath.Join(repo, "verifio")); err != nil {
 		return nil, err
 	}
 	return o, nil
